@@ -267,6 +267,7 @@ def run(ctx):
                      "external library.")
     ctx.floor = 30
     P = ctx.prog
+    wrappers(ctx, ['round2::sign', 'aggregate', 'aggregate_custom', 'round1::commit'])
     # (1) reductions
     f = ctx.anchor(CORE + "compute_lagrange_coefficient")
     if f:
